@@ -88,6 +88,27 @@ def _is_chain(e: ast.AST) -> bool:
     return isinstance(e, (ast.Name, ast.Constant))
 
 
+def _bare_names(e: ast.AST) -> list:
+    """Name nodes of ``e`` that are not merely the base of an attribute / item read (``x`` in ``f(x)``, not in ``f(x.a)``)."""
+    out = []
+
+    def visit(n: ast.AST, under_chain: bool) -> None:
+        if isinstance(n, ast.Name):
+            if not under_chain:
+                out.append(n)
+            return
+        if isinstance(n, (ast.Attribute, ast.Subscript)):
+            visit(n.value, True)
+            if isinstance(n, ast.Subscript):
+                visit(n.slice, False)
+            return
+        for c in ast.iter_child_nodes(n):
+            visit(c, False)
+
+    visit(e, False)
+    return out
+
+
 def _has_call(e: ast.AST) -> bool:
     return any(isinstance(x, (ast.Call, ast.Await, ast.Yield, ast.YieldFrom, ast.NamedExpr)) for x in ast.walk(e))
 
@@ -654,8 +675,12 @@ def inline_temporaries(fn: ast.AST, only: typing.Optional[set] = None, sigs: typ
                 for s in span:
                     for n in ast.walk(s):
                         if isinstance(n, ast.Call):
-                            touched = _names(n.func) | {y for a in n.args for y in _names(a)} | {y for k in n.keywords for y in _names(k.value)}
-                            if bname in touched and not (isinstance(n.func, ast.Name) and n.func.id in ('isinstance', 'len', 'type', 'id', 'repr', 'str', 'hash')):
+                            # the base object itself is handed to / called upon by something that may re-bind its attributes
+                            handed = [a for a in list(n.args) + [k.value for k in n.keywords]]
+                            bare = any(isinstance(y, ast.Name) and y.id == bname and not isinstance(getattr(y, '_chain_parent', None), ast.Attribute) for a in handed for y in _bare_names(a))
+                            method = isinstance(n.func, ast.Attribute) and isinstance(n.func.value, ast.Name) and n.func.value.id == bname
+                            direct = isinstance(n.func, ast.Name) and n.func.id == bname
+                            if (bare or method or direct) and not (isinstance(n.func, ast.Name) and n.func.id in ('isinstance', 'len', 'type', 'id', 'repr', 'str', 'hash')):
                                 ok = False
                         if isinstance(n, (ast.Attribute, ast.Subscript)) and isinstance(n.ctx, (ast.Store, ast.Del)) and bname in _names(n):
                             ok = False
